@@ -37,10 +37,12 @@ class Trees:
     def isinstance_(self, v, c):
         if v not in self.kind:
             return NotImplemented
+        if isinstance(c, T) and c.op == 'tuple':
+            return any(self.isinstance_(v, x) is True for x in c.args)
         cn = gname(c).split('.')[-1]
         k = self.kind[v]
         return {'EvalAggregator': k == 'agg', 'EvalColumn': k == 'col', 'EvalConstant': k == 'const', 'EvalQuery': False,
-                'EvalNode': True}.get(cn, False)
+                'EvalGetter': k == 'getter', 'EvalGetItem': k == 'getitem', 'EvalNode': True}.get(cn, False)
 
     def call(self, fname, recv):
         if recv in self.kind and str(fname).endswith('.childnodes'):
@@ -574,6 +576,26 @@ def rule_aggcollect(P) -> RuleResult:
                          f'{[show(x) for x in want_cols]}; found {[show(x) for x in got[0]]}', loc(fi))
             else:
                 res.ok({'function': fi.fq, 'tree': label, 'aggregates': [show(x) for x in got[1]], 'columns': [show(x) for x in got[0]]})
+    # is_aggregate: true exactly for the expressions that hold an aggregate node anywhere - also below x.attr and x['key']
+    ia = P.func(CO, 'is_aggregate')
+    below = t.node('AGG_dict', 'agg', col('COL_meta'))
+    more = {
+        "a subscript on an aggregate (first(meta)['k'])": (t.node('GETITEM', 'getitem', below), True),
+        'an attribute of an aggregate (last(entry).date)': (t.node('GETTER', 'getter', t.node('AGG_entry', 'agg', col('COL_entry'))), True),
+        'a function of a subscript on an aggregate': (t.node('OP_over', 'op', t.node('GETITEM2', 'getitem', below), t.node('CONST_c', 'const')), True),
+        'a subscript on a column': (t.node('GETITEM3', 'getitem', col('COL_meta2')), False),
+    }
+    more.update({label: (root, bool(want_aggs)) for label, (root, _c, want_aggs) in cases.items()})
+    for label, (root, want) in more.items():
+        for p in Engine(P, on_isinstance=on_isinstance, on_call=on_call).paths(ia, {ia.params[0]: root}):
+            if p.outcome != 'return' or p.decisions or p.value not in (True, False):
+                raise AnalysisError(f'{ia.fq}: {label}: result not concrete on terms: {p.outcome} {show(p.value)[:80]}')
+            if p.value is not want:
+                res.fail(ia.fq, 'aggcollect:is-aggregate', f'{label}: is_aggregate must be {want}; it is {p.value}. A target taken for a '
+                         f'non-aggregate is evaluated per row and used as a grouping key, so the aggregate below it is never folded '
+                         f'(NULL in every row)', loc(ia))
+            else:
+                res.ok({'function': ia.fq, 'tree': label, 'is_aggregate': want})
     return res
 
 
@@ -650,4 +672,78 @@ def rule_opresolve(P) -> RuleResult:
             res.fail(fi.fq, 'opresolve:class', f'{fi.qualname}: operands that match no overload raise {wrong[0].value[0]}, not a CompilationError', loc(fi))
         else:
             res.ok({'handler': fi.fq, 'resolution': 'by operand dtypes, CompilationError otherwise', 'paths': len(paths)})
+    return res
+
+
+# ---------------------------------------------------------------------- R-OPNODE
+def rule_opnode(P) -> RuleResult:
+    """The operator handlers with well-typed operands, on terms, whatever the syntax of the operands is (every isinstance / type test
+    on the syntax tree is explored both ways): the node returned is the overload registered for *this* operator - OPERATORS[type(node)]
+    resp. the lookup keyed by type(node) - applied to the compiled operands of this node in their order.  There is no rewriting of
+    one operator into another: NOT (a < b) is not a >= b, because NOT NULL is TRUE and a comparison with NULL is NULL."""
+    res = RuleResult('R-OPNODE')
+    res.exhaustive = True
+    NODE = Sym('AST_NODE')
+    OVER = Sym('OVERLOAD')
+    cases = (('_unaryop', ('operand',)), ('_binaryop', ('left', 'right')), ('_between', ('operand', 'lower', 'upper')))
+    for meth, fields in cases:
+        fi = _method(P, meth)
+        ASTS = {f: Sym('AST_' + f.upper()) for f in fields}
+        COMP = {ASTS[f]: Sym('C_' + f.upper()) for f in fields}
+
+        def on_attr(base, attr, ex):
+            if base == NODE and attr in ASTS:
+                return ASTS[attr]
+            if base in COMP.values() and attr == 'dtype':
+                return Sym('DTYPE_' + base.name)
+            if base == OVER and attr == '__intypes__':
+                return SList([Sym('DTYPE_' + c.name) for c in COMP.values()])
+            if attr == 'pure':
+                return False
+            return NotImplemented
+
+        def on_call(fn, fv, rc, a, k, ex, nd):
+            f = str(fn).split('.')[-1]
+            if f == '_compile' and a:
+                return COMP.get(a[0], T('call', ('_compile', tuple(a), ())))
+            if f == 'function_lookup':
+                key_ok = len(a) >= 2 and a[1] == T('call', ('type', (NODE,), ()))
+                return OVER if key_ok else T('call', ('function_lookup', tuple(a), ()))
+            if f == 'type' and tuple(a) == (NODE,):
+                return T('call', ('type', (NODE,), ()))
+            if fv == OVER:
+                return T('new', ('OPERATOR_NODE', tuple(a)))
+            if f in ('name', 'lower', 'format', 'join'):
+                return 'x'
+            return NotImplemented
+
+        def on_item(base, idx, ex):
+            if isinstance(base, T) and base.op == 'global' and base.args[0].endswith('OPERATORS'):
+                return SList([OVER]) if idx == T('call', ('type', (NODE,), ())) else SList([Sym('OVERLOAD_OF_ANOTHER_OPERATOR')])
+            return NotImplemented
+        want = T('new', ('OPERATOR_NODE', tuple(COMP[ASTS[f]] for f in fields)))
+        n = 0
+        bad = None
+        # syntax tests are undecided: both branches of each are followed; tests on the *compiled* operands (constant folding) are false
+        def on_isinstance(v, c, ex):
+            if v in COMP.values():
+                return False
+            return NotImplemented
+        for p in Engine(P, on_attr=on_attr, on_call=on_call, on_item=on_item, on_isinstance=on_isinstance,
+                        globals_={'OPERATORS': T('global', ('OPERATORS',)), 'FUNCTIONS': T('global', ('FUNCTIONS',))}).paths(
+                fi, {'self': SELF, fi.params[1]: NODE}):
+            n += 1
+            if p.outcome == 'return' and p.value == want:
+                continue
+            bad = p
+            break
+        if n == 0:
+            raise AnalysisError(f'{fi.fq}: no path on terms')
+        if bad is not None:
+            cond = f' when {" and ".join(show(t)[:60] + " is " + str(o) for t, o in bad.decisions)}' if bad.decisions else ''
+            res.fail(fi.fq, 'opnode:rewrite', f'{fi.qualname} with well-typed operands must return the overload of this very operator applied to '
+                     f'the compiled {", ".join(fields)}; it {"returns `" + show(bad.value)[:80] + "`" if bad.outcome == "return" else "raises " + str(bad.value[0])}'
+                     f'{cond}', loc(fi))
+        else:
+            res.ok({'handler': fi.fq, 'node': f'OPERATORS[type(node)] overload({", ".join(fields)})', 'paths': n})
     return res
